@@ -114,3 +114,10 @@ def penalty_zero_exactly_on_the_feasible_side(ctx):
     """the penalty types the generated penalty is stacked from add zero where their condition is satisfied and a positive amount where it is violated (sign analysis shared with C15.d)"""
     from .c15 import zero_feasible_positive_violated
     zero_feasible_positive_violated(ctx)
+
+
+@rule('C14.d', min_instances=12)
+def stacked_terms_share_one_iteration_count(ctx):
+    """the generated penalty is the documented sum only if every stacked term uses the same n in k*h**n: the iter/iteration/clear/store closures of the two penalty types generate_penalty stacks (quadratic_equality, quadratic_inequality) agree with the family reference - iter(i) sets the count to i whenever i is not None (0 included), counts up otherwise, and forwards to the nested term (shared with C15.a)"""
+    from .c15 import closure_family
+    closure_family(ctx, types=('quadratic_equality', 'quadratic_inequality'))
